@@ -1046,9 +1046,9 @@ def mk_dedup_api(maxnp, maxn, kind, full=False):
         lab = rgs(e, sum(sizes))
         # KNOWN REGION (dask behaviour contradicting the property text, reported): the disk shuffle does not keep the order of the rows, so
         # drop_duplicates(keep='first' / 'last', shuffle_method='disk') may keep another representative of a duplicated key than pandas.
-        # dup_keys names the frames that have duplicated keys at all; on those, the calls with shuffle_method='disk' are only required to keep one
-        # row per distinct key.
-        dup = int(len(set(lab)) < len(lab) or len(lab) > 2)
+        # dup_keys names the frames on which some call below sees duplicated keys (k2 repeats from the second row on); there, a call with
+        # shuffle_method='disk' whose own subset has duplicates is only required to keep one row per distinct key.
+        dup = int(len(lab) >= 2)
         v = e.int("dup_keys", 0, 1)
         e.assume(lambda: v == dup)
         return sizes, lab, dup
@@ -1079,7 +1079,7 @@ def mk_dedup_api(maxnp, maxn, kind, full=False):
             except Exception as ex:
                 raise Violation(f"{what}: {type(ex).__name__}: {ex}")
             want = df.drop_duplicates(subset=subset, keep=keep)
-            exact = not (method == "disk" and dup)
+            exact = not (method == "disk" and dup and len(want) < N)
             obs.append(_check_dedup(e, frames, df, want, what, exact, subset))
             if exact and not ii:
                 got = pd.concat(frames)
@@ -1095,7 +1095,7 @@ def mk_dedup_api(maxnp, maxn, kind, full=False):
         want = df[["k", "k2"]].drop_duplicates()
         e.check(sorted(map(repr, _key_rows(got, ["k", "k2"]))) == sorted(map(repr, _key_rows(want, ["k", "k2"]))),
                 f"{what}: {_key_rows(got, ['k', 'k2'])}, pandas {_key_rows(want, ['k', 'k2'])}")
-        if not (method == "disk" and dup):
+        if not (method == "disk" and dup and len(want) < N):
             e.check(sorted(got.index) == sorted(want.index), f"{what}: kept index labels {sorted(got.index)}, pandas keeps {sorted(want.index)}")
         # Series.drop_duplicates / unique / nunique
         keep = ("first", "last")[o % 2]
@@ -1107,7 +1107,7 @@ def mk_dedup_api(maxnp, maxn, kind, full=False):
         got = pd.concat(frames)
         want = df.k.drop_duplicates(keep=keep)
         e.check(sorted(map(repr, map(canon, got))) == sorted(map(repr, map(canon, want))), f"{what}: values {list(got)}, pandas {list(want)}")
-        if not (method == "disk" and dup):
+        if not (method == "disk" and dup and len(want) < N):
             e.check(sorted(got.index) == sorted(want.index), f"{what}: kept index labels {sorted(got.index)}, pandas keeps {sorted(want.index)}")
         for j in range(2 if full else 1):
             spo, spe, method = DD_SPLIT_OUT[(o // 2 + j) % 4], DD_SPLIT_EVERY[(o // 3 + j) % 4], DD_METHODS[(o + 2 * j) % 4]
